@@ -33,7 +33,7 @@ def cases(ctx, budget):
     for i in range(n):
         exotic = rng.random() < 0.3
         names = gen.NAMES if exotic else gen.SIMPLE_NAMES
-        v = gen.rand_json(rng, depth=rng.randint(1, 4), fan=4, names=names)
+        v = gen.rand_json(rng, depth=rng.randint(1, 4), fan=4, names=names, top=rng.random() < 0.9)
         if rng.random() < 0.7: q = gen.guided_query(rng, v, names=names, filters=False, maxseg=4)
         else: q = gen.rand_query(rng, names=names, filters=False, depth=1, maxseg=4)
         text = gen.render_query(rng, q)
